@@ -95,7 +95,7 @@ fn part_stm(ctx: &Ctx, rep: &mut Report) {
             "every_pair_of_mutations_up_to_n": n_pairs,
             "forger_path_up_to_n": forge_n,
             "forger_claimed_positions": {"n<=4": claims_small, "n<=8": claims_mid, "larger": 2},
-            "forger_position_range": "0 .. 4*next_pow2(n)+1 (inside the tree, the padding area, one level below the leaves)",
+            "forger_position_range": "0 .. 4*next_pow2(n)+1 (inside the tree, the padding area, one level below the leaves), positions may repeat",
             "brute_force_single_claim_up_to_n": brute_n,
         }),
     );
